@@ -24,7 +24,7 @@ from __future__ import annotations
 import time
 import uuid
 from abc import ABC, abstractmethod
-from datetime import datetime
+from datetime import datetime, timezone
 from typing import Any, Callable, Iterable, List, Optional, Sequence, TypeVar, cast
 
 from semantiva.data_processors.data_processors import ParameterInfo, _NO_DEFAULT
@@ -784,7 +784,12 @@ class SemantivaOrchestrator(ABC):
         return end_iso, duration_ms, cpu_ms
 
     def _iso_now(self) -> str:
-        return datetime.now().isoformat(timespec="milliseconds") + "Z"
+        return (
+            datetime.now(timezone.utc)
+            .replace(tzinfo=None)
+            .isoformat(timespec="milliseconds")
+            + "Z"
+        )
 
     def _resolve_processor_classes(
         self, canonical: dict[str, Any], resolved_spec: Sequence[dict[str, Any]]
